@@ -71,8 +71,9 @@ def check_frame_writer(ctx, rule, P, fn_key, msg_param, sink_pred, sink_desc):
 
 
 def check_frame_reader(ctx, rule, P, fn_key, buf_desc, strict=True):
-    """Reader is the inverse by shape: n = peek(P); L = Uint::try_from(P[..n]).0; require L <= |P| - n;
-    message = P[n .. n+L]; otherwise a constant-0 flag."""
+    """Reader is the inverse of the writer: n = peek(P); L = Uint::try_from(P[..n]).0; require L <= |P| - n;
+    message = P[n .. n+L]; otherwise a constant-0 flag.  Slices are compared in a slice algebra
+    (`P[a..b]`, `split_at`, nested slices, `len` of a slice), so the indexing style does not matter."""
     fn = ctx.need_fn(rule, fn_key, P)
     if fn is None:
         return
@@ -82,58 +83,60 @@ def check_frame_reader(ctx, rule, P, fn_key, buf_desc, strict=True):
         ctx.ob(rule + ".anchor", fn_key + "/peek", False, "length-prefix peek not found in `%s`" % fn_key, where=where(fn))
         return
     pk = strip_sites(peeks[0].value)
-    buf = B.peel(peeks[0].args[0])
-    n = T("field", T("downcast", pk, "Some"), "0")
-    # decoded length
+    buf = strip_sites(B.peel(peeks[0].args[0]))
+    n = ("t", T("field", T("downcast", pk, "Some"), "0"))
+    blen = ("len", buf)
+    # decoded length: try_from(P[..n])
     tf = [s for s in ev.sites.values() if s.callee[0] == "TryFrom::try_from" and any("Uint" in g for g in s.callee[1])]
     ok_tf = False
     if tf:
-        a = strip_sites(B.peel(tf[0].args[0]))
-        # P[..n]
-        ok_tf = a.op == "call" and B.cname(a) == "Index::index" and _same_buf(a.a[1][0], buf) and _range(a.a[1][1]) == ("to", n)
+        sf = B.slice_form(tf[0].args[0])
+        ok_tf = sf is not None and sf[0] == buf and B.lin_eq(sf[1], ("c", 0)) and B.lin_eq(sf[2], n)
     ctx.ob(rule, fn_key + "/prefix", ok_tf, "length is decoded from exactly the peeked prefix %s[..n] with the zig-zag codec" % buf_desc, where=where(fn, tf[0].bb if tf else None))
-    # slicing sites P[n .. n+L]
-    idx = [s for s in ev.sites.values() if s.callee[0] == "Index::index" and _range(strip_sites(s.args[1])) and _range(strip_sites(s.args[1]))[0] == "range"]
-    if not idx:
-        ctx.ob(rule + ".anchor", fn_key + "/slice", False, "message slice not found in `%s`" % fn_key, where=where(fn))
+    # the message: the value of the CtOption built with a non-constant flag
+    main = [(bb, v, fl) for bb, v, fl in R.ctoption_sites(P, fn) if G.formula(fl, P) != G.FALSE]
+    msg = None
+    for bb, s_ in sorted(ev.sites.items()):
+        if s_.callee[0] not in ("Index::index", "slice::<impl [T]>::get", "slice::<impl [T]>::split_at"):
+            continue
+        sf = B.slice_form(s_.value)
+        if sf is None or sf[0] != buf or not B.lin_eq(sf[1], n) or B.lin_eq(sf[2], blen):
+            continue
+        # it is the value handed out with the non-constant flag
+        sv = strip_sites(s_.value)
+        if any(any(x == sv for x in subterms(strip_sites(v))) for _, v, _ in main):
+            msg = (bb, sf)
+    if msg is None:
+        ctx.ob(rule + ".anchor", fn_key + "/slice", False, "message slice of %s not found in `%s`" % (buf_desc, fn_key), where=where(fn))
         return
-    sl = idx[0]
-    rg = _range(strip_sites(sl.args[1]))
-    L = None
-    start_ok = rg[1] == n
-    end = rg[2]
-    # end = (n + L).0 with L = (unwrap(try_from(..)).0 as usize)
-    from .aborts import _binop
-
-    ab = _binop(end, ("AddWithOverflow", "Add", "AddUnchecked"))
-    if ab:
-        x, y = ab
-        L = y if x == n else (x if y == n else None)
-    decoded = L is not None and any(s.op == "call" and B.cname(s) == "TryFrom::try_from" for s in subterms(L)) and not strict or L is not None and any(s.op == "call" and B.cname(s) == "TryFrom::try_from" for s in subterms(L)) and not any(s.op == "call" and B.cname(s) in ("core::min", "Ord::min", "cmp::min", "usize::min", "num::<impl usize>::min", "Ord::clamp") for s in subterms(L))
-    ctx.ob(rule, fn_key + "/slice", start_ok and decoded and _same_buf(sl.args[0], buf), "message = %s[n .. n+L] with L the decoded length itself (no clamping): range=%s" % (buf_desc, show(strip_sites(sl.args[1]), 5)), where=where(fn, sl.bb))
+    mbb, (_, st, en) = msg
+    L = B.lin_sub(en, st)
+    Lterms = [k[1] for k in (B._lin(L) or (0, {}))[1]] if L is not None else []
+    decoded = L is not None and len(Lterms) == 1 and any(s.op == "call" and B.cname(s) == "TryFrom::try_from" for s in subterms(Lterms[0]))
+    clamped = any(s.op == "call" and B.cname(s).split("::")[-1] in ("min", "clamp", "saturating_sub") for t_ in Lterms for s in subterms(t_))
+    ctx.ob(rule, fn_key + "/slice", B.lin_eq(st, n) and decoded and (not clamped or not strict), "message = %s[n .. n+L] with L the decoded length itself (no clamping): start=%s length=%s" % (buf_desc, B._show_len(B._unlin(B._lin(st))) if B._lin(st) else "?", B._show_len(L) if L is not None else "?"), where=where(fn, mbb))
     if not strict:
         return
-    # the bound: L <= |P| - n dominates the slice
-    lits = G.path_literals(ev, sl.bb, P)
+    # the bound L <= |P| - n holds where the slice is taken: some dominating comparison is exactly  n + L - |P| <= 0
+    target = B._lin(("sub", ("add", n, L), blen)) if L is not None else None
+    lits = G.path_literals(ev, mbb, P)
     bound = False
     shown = []
     for atom, pol in lits:
-        if atom[0] == "atom" and atom[1] == "cmp":
-            op, a, b = atom[2], atom[3], atom[4]
-            if not pol:
-                op = R._NEG[op]
-            shown.append("%s %s %s" % (show(a, 3), op, show(b, 3)))
-            if L is None:
-                continue
-            if op in ("Le",) and a == L and _is_len_minus(b, buf, n):
-                bound = True
-            if op in ("Ge",) and b == L and _is_len_minus(a, buf, n):
-                bound = True
-            if op in ("Le",) and _is_sum(a, n, L) and _is_len(b, buf):
-                bound = True
-            if op in ("Lt",) and a == L and _is_len_minus(b, buf, n) and False:
-                bound = True
-    ctx.ob(rule, fn_key + "/bound", bound, "slice is dominated by L <= |%s| - n (found conditions: %s)" % (buf_desc, shown[:4]), where=where(fn, sl.bb), sample={"conditions": shown[:4]})
+        if atom[0] != "atom" or atom[1] != "cmp":
+            continue
+        op, a, b = atom[2], atom[3], atom[4]
+        if not pol:
+            op = R._NEG[op]
+        shown.append("%s %s %s" % (show(a, 3), op, show(b, 3)))
+        if target is None:
+            continue
+        fa, fb = B.int_form(a), B.int_form(b)
+        if op == "Le" and B._lin(("sub", fa, fb)) == target:
+            bound = True
+        if op == "Ge" and B._lin(("sub", fb, fa)) == target:
+            bound = True
+    ctx.ob(rule, fn_key + "/bound", bound, "slice is dominated by L <= |%s| - n (found conditions: %s)" % (buf_desc, shown[:4]), where=where(fn, mbb), sample={"conditions": shown[:4]})
     # the failing branch yields a constant-false flag
     ct = R.ctoption_sites(P, fn)
     consts = [c for c in ct if G.formula(c[2], P) == G.FALSE]
